@@ -3,7 +3,7 @@
 import json, os, re, sys
 root = "/verif/seeded"
 confirm = {}
-for series in ("a", "b", "c", "d", "e", "f", "g", "h"):
+for series in "abcdefghijklm":
     lp = os.path.join(root, "confirm_demos_%s.log" % series)
     if os.path.exists(lp):
         for l in open(lp):
